@@ -156,6 +156,12 @@ def kwnames(func, args=1, kwargs=2, ignore=3):
     return ("kwnames", [("func", _c(func)), ("args", _c(args)), ("kwargs", _c(kwargs)), ("ignore", _c(ignore))])
 
 
+def unpick(a, b=1):
+    # the result cannot be pickled: nothing may be published for it, every call executes
+    COUNT["unpick"] += 1
+    return ("unpick", [("a", _c(a)), ("b", _c(b))], lambda: None)
+
+
 REC = None      # the sessions put the cached wrapper of `rec` here: memoised recursion re-enters the same MemorizedFunc
 
 
@@ -181,6 +187,8 @@ VALUES = [
     ("{frozenset({3}): 3, frozenset({2}): 2, frozenset({1}): 1}", {frozenset({3}): 3, frozenset({2}): 2, frozenset({1}): 1}),
     ("{frozenset({1, 2}), frozenset({3}), frozenset({4, 5})}", {frozenset({1, 2}), frozenset({3}), frozenset({4, 5})}),
     ("{frozenset({4, 5}), frozenset({3}), frozenset({1, 2})}", {frozenset({4, 5}), frozenset({3}), frozenset({1, 2})}),
+    ("OrderedDict([(1, 'x'), ('a', 'y')])", collections.OrderedDict([(1, "x"), ("a", "y")])),
+    ("OrderedDict([(1, 'z'), ('a', 'y')])", collections.OrderedDict([(1, "z"), ("a", "y")])),
     ("'L' * 9000", "L" * 9000), ("'L' * 8999 + 'M'", "L" * 8999 + "M"), ("[1, [2, {'k': (3,)}]]", [1, [2, {"k": (3,)}]]),
 ]
 
@@ -251,12 +259,12 @@ def gen_call(rng, fn, pool):
 def gen_history(rng, n_ops=14):
     funcs = gen_universe(rng, rng.choice([1, 2, 3]))
     pool = rng.sample(range(len(VALUES)), rng.randint(2, 5))
-    specials = ["meth1", "meth2", "part", "acoro", "part", "part2", "part3", "nestbase", "nested", "kwnames", "rec", "rec"]
+    specials = ["meth1", "meth2", "part", "acoro", "part", "part2", "part3", "nestbase", "nested", "kwnames", "rec", "rec", "unpick"]
     p_special = 0.12
     if rng.random() < 0.12:
         # histories about callables that share one place in the store (partials; the two bound methods)
         p_special = 0.8; specials = rng.choice([["part", "part2", "part3"], ["part", "part2"], ["meth1", "meth2", "part", "part3"],
-                                               ["nested", "nestbase"], ["nested", "nestbase", "meth1"], ["rec"], ["rec", "kwnames"]])
+                                               ["nested", "nestbase"], ["nested", "nestbase", "meth1"], ["rec"], ["rec", "kwnames"], ["unpick", "meth1"]])
         pool = pool[:2]
     ops = []
     calls = []
@@ -292,6 +300,8 @@ def gen_history(rng, n_ops=14):
             ops.append([kind, c])
         elif r < 0.74:
             ops.append(["restart", {"compress": rng.choice([False, False, True, 3])}])
+        elif r < 0.775:
+            ops.append(["foreign_clear"])        # ANOTHER process clears the whole cache while this one lives on
         elif r < 0.80:
             ops.append(["clear"])
         elif r < 0.86:
@@ -313,7 +323,7 @@ def gen_history(rng, n_ops=14):
         for op in ops:
             if op[0] in ("call", "shelve", "check", "callcb", "damage"):
                 op[1] = dict(op[1], loc=rng.choice([0, 0, 1]))
-            elif op[0] in ("clear", "reduce_all", "fclear"):
+            elif op[0] in ("clear", "reduce_all", "fclear", "foreign_clear"):
                 op.append({"loc": rng.choice([0, 1])})
     return hist
 
@@ -477,8 +487,15 @@ def session(root, hist, start, t0, compress):
                         v = f(*args, **kwargs)
                         if c["fn"] == "acoro":
                             v = asyncio.run(v)
+                    if c["fn"] == "unpick" and isinstance(v, tuple):
+                        v = v[:2]                # (the unpicklable, unequal last component stays in the session)
                     rec["value"] = v
                 rec["executed"] = umod.COUNT[cname] - n0
+            elif op[0] == "foreign_clear":
+                loc_dir = mems[_loc(op)].location
+                k_, r_ = fork_run(lambda: Memory(loc_dir, verbose=0).clear(warn=False), 60.0)
+                if k_ != "ok":
+                    raise RuntimeError("foreign clear: %s %s" % (k_, r_))
             elif op[0] == "clear":
                 mems[_loc(op)].clear(warn=False)
             elif op[0] == "fclear":
@@ -553,7 +570,7 @@ def run_history(hist):
                 if op[0] == "advance":
                     tcur += op[1]; continue
                 loc = _loc(op)
-                if op[0] in ("clear", "reduce_all"):
+                if op[0] in ("clear", "reduce_all", "foreign_clear"):
                     if "exc" in rec:
                         findings.append(("C06", "maintenance_op_raised", "%s raised %s" % (op, rec["exc"]), {"what": "maintenance_op_raised"}))
                     for k in [k for k in live if k[2] == loc]:
@@ -588,11 +605,16 @@ def run_history(hist):
                         stats["partial_switches"] += 1
                     store_partial[loc] = c["fn"]
                 want = plain_value(umod, vals, c)
+                if c["fn"] == "unpick":
+                    # compare without the unpicklable (and unequal) last component; never cached
+                    want = want[:2]
                 key = (c["fn"], repr(want), loc)        # the value spells out every non-ignored bound argument, type-aware
                 is_live = key in live and (op[0] != "callcb" or tcur - live[key] < 100)
                 if op[0] == "callcb" and key in live and not is_live:
                     del live[key]                   # joblib clears the expired entry
                 stats["calls"] += 1
+                if c["fn"] == "unpick" and op[0] == "shelve":
+                    continue            # a result that cannot be stored cannot be shelved: what .get() raises is not judged
                 if key in damaged and key in live:
                     # a damaged entry: a plain call recomputes once and repairs it; what check_call_in_cache answers and
                     # what a shelved reference does with the unreadable file is not part of the statement
@@ -634,7 +656,7 @@ def run_history(hist):
                     findings.append(("C06", "hit_miss_mismatch", "%s [%s]: body executed %d times, expected %d (entry %s)" % (
                         describe(hist, c), sig_text(hist, c["fn"]), rec["executed"], exp_exec, "live" if is_live else "not live"),
                         {"what": "hit_miss_mismatch", "executed": rec["executed"], "shape": sig_shape(hist, c["fn"])}))
-                if not is_live:
+                if not is_live and c["fn"] != "unpick":
                     live[key] = tcur; damaged.discard(key)
             t = t_end
             i = nxt
